@@ -255,6 +255,60 @@ def r03_10_registered_is_given(ctx, rid='R03.10'):
     r.done()
 
 
+def _transparent_override(P, c, m, base, name) -> bool:
+    """an override that cannot change what the base method does: its last statement hands the method's own parameters, unchanged
+    and in order, to the base implementation (and returns its result), and everything before that only looks - calls of the class's
+    own private methods whose transitive writes go to containers made fresh for that call, logging, raising"""
+    from ..effects import world, call_closure, direct_writes
+    body = [st for st in m.node.body if not (isinstance(st, ast.Expr) and isinstance(st.value, ast.Constant))]
+    if not body:
+        return False
+    last = body[-1]
+    call = last.value if isinstance(last, (ast.Expr, ast.Return)) else None
+    params = [a.arg for a in m.node.args.args]
+    if not (isinstance(call, ast.Call) and not call.keywords and params):
+        return False
+    f = call.func
+    direct = isinstance(f, ast.Attribute) and f.attr == name and norm(f.value).split('.')[-1] in [b.name for b in P.mro(c)[1:]] \
+        and [norm(a) for a in call.args] == params
+    sup = isinstance(f, ast.Attribute) and f.attr == name and norm(f.value) == 'super()' and [norm(a) for a in call.args] == params[1:]
+    if not (direct or sup):
+        return False
+    W = world(P)
+    for st in body[:-1]:
+        if isinstance(st, ast.Expr) and isinstance(st.value, ast.Call) and norm(st.value.func).startswith('logger.'):
+            continue
+        if not (isinstance(st, ast.Expr) and isinstance(st.value, ast.Call) and isinstance(st.value.func, ast.Attribute)
+                and norm(st.value.func.value) == params[0] and not st.value.keywords):
+            return False
+        cname = st.value.func.attr
+        callee = c.methods.get(cname) or c.methods.get('_%s%s' % (c.name, cname)) or c.methods.get(cname.replace('_%s' % c.name, '', 1))
+        if callee is None:
+            return False
+        cps = [a.arg for a in callee.node.args.args][1:]
+        fresh = set()
+        for pn, a in zip(cps, st.value.args):
+            if (isinstance(a, (ast.List, ast.Dict, ast.Set)) and not getattr(a, 'elts', getattr(a, 'keys', None))) or (
+                    isinstance(a, ast.Call) and isinstance(a.func, ast.Name) and a.func.id in ('set', 'list', 'dict') and not a.args):
+                fresh.add(pn)
+        try:
+            fis = call_closure(W, [callee.key])
+        except Exception:
+            return False
+        for ev in direct_writes(W, fis):
+            for root in ev.roots:
+                if root == 'fresh':
+                    continue
+                if root.startswith('param:') and root.split(':')[1].split('.')[0] in fresh and ev.fi.key == callee.key:
+                    continue
+                if root.startswith('local'):
+                    continue
+                return False
+        # nothing is rebound either: the parameters reach the base call as they came in
+    stored = {n.id for n in ast.walk(m.node) if isinstance(n, ast.Name) and isinstance(n.ctx, ast.Store)}
+    return not (stored & set(params))
+
+
 def r06_10_dumper_resolver_untouched(ctx, rid='R06.10'):
     """The dumper quotes by PyYAML's own resolver table (YAML 1.1): that is what makes the output mean the same to any plain
     parser. Nothing on the dumping side may replace or extend the implicit resolvers, and nothing overrides how anchors are named
@@ -301,6 +355,10 @@ def r06_10_dumper_resolver_untouched(ctx, rid='R06.10'):
             if name in b.methods:
                 base = b
                 break
+        if base is not None and not base.module.name.startswith('yatiml') and _transparent_override(P, c, m, base, name):
+            r.ok('Dumper.%s only checks (writes nothing but its own fresh bookkeeping, may refuse by raising) and then hands its '
+                 'arguments unchanged to %s.%s' % (name, base.name, name))
+            continue
         if base is not None and not base.module.name.startswith('yatiml'):
             r.fail('yatiml.dumper:Dumper:overrides:%s' % name, m.loc(m.node), 'Dumper overrides PyYAML\'s %s.%s: the text written for a '
                    'value (anchors, styles, what stays plain) no longer follows PyYAML\'s serialiser, e.g. anchor names that differ from '
